@@ -23,7 +23,10 @@ import time
 
 VERIF = os.path.dirname(os.path.abspath(__file__))
 REPO = os.environ.get("VERIF_REPO", "/repo")
-WORK = os.path.join(VERIF, ".work")
+WORK = os.environ.get("VERIF_WORK", os.path.join(VERIF, ".work"))
+# self-tests against a scratch copy of the repository keep their evidence / replays out of the way
+SCRATCH = os.path.realpath(REPO) != "/repo"
+OUTDIR = WORK if SCRATCH else VERIF
 KDIR = os.path.join(VERIF, "kani")
 FEATURES = "std,pratt,extension,either"
 WORKERS = int(os.environ.get("VERIF_WORKERS", "12"))
@@ -290,6 +293,13 @@ def build_replay():
     if os.path.exists(os.path.join(REPO, "Cargo.lock")) and not os.path.exists(os.path.join(rdir, "Cargo.lock")):
         pass
     tdir = os.path.join(WORK, "replay-target")
+    if SCRATCH:
+        # private copy of the tiny driver crate so that parallel self-tests do not share a manifest
+        rdir2 = os.path.join(WORK, "replay-crate")
+        shutil.rmtree(rdir2, ignore_errors=True)
+        shutil.copytree(rdir, rdir2, ignore=shutil.ignore_patterns("target", "Cargo.lock"))
+        rdir = rdir2
+        open(os.path.join(rdir, "Cargo.toml"), "w").write(manifest)
     p = subprocess.run(["cargo", "build", "--offline", "--target-dir", tdir], cwd=rdir, env=env,
                        stdout=subprocess.PIPE, stderr=subprocess.STDOUT, text=True)
     if p.returncode != 0:
@@ -431,6 +441,8 @@ def decide(pid, tier, seed):
                     known_hit.append((kfm[0], n))
                 elif was == "SUCCESS" or was == "UNREACHABLE":
                     violations.append((n, tag, r))
+                    if not is_bounded:
+                        n_obl += 1
                 else:
                     undecided.append(f"{n}: {tag} fails but was never registered as passing")
             elif now in ("SUCCESS", "UNREACHABLE"):
@@ -499,8 +511,8 @@ def decide(pid, tier, seed):
             continue
         seen.add(tag)
         viol_count += 1
-        os.makedirs(os.path.join(VERIF, "replays"), exist_ok=True)
-        path = os.path.join(VERIF, "replays", f"{pid}-{re.sub(r'[^A-Za-z0-9_.-]', '_', tag)[:80]}.json")
+        os.makedirs(os.path.join(OUTDIR, "replays"), exist_ok=True)
+        path = os.path.join(OUTDIR, "replays", f"{pid}-{re.sub(r'[^A-Za-z0-9_.-]', '_', tag)[:80]}.json")
         rec = {"property": pid, "obligation": tag, "harness": n, "verifier_output": r.get("raw_tail", "")[-2500:]}
         suffix = ""
         if r.get("verus"):
@@ -561,8 +573,8 @@ def decide(pid, tier, seed):
         "wall_s": round(time.time() - t0, 1),
         "violations": viol_count,
     }
-    os.makedirs(os.path.join(VERIF, "evidence"), exist_ok=True)
-    json.dump(ev, open(os.path.join(VERIF, "evidence", pid + ".json"), "w"), indent=1)
+    os.makedirs(os.path.join(OUTDIR, "evidence"), exist_ok=True)
+    json.dump(ev, open(os.path.join(OUTDIR, "evidence", pid + ".json"), "w"), indent=1)
     print(f"{pid} [{tier}]: obligations={n_obl} discharged={n_dis} bounded(not counted)={len(bounded)} "
           f"known-findings={len(printed)} violations={viol_count} undecided={len(undecided)} wall={ev['wall_s']}s")
     return rc
